@@ -1,8 +1,8 @@
 package props
 
 import (
-	"encoding/binary"
 	"bytes"
+	"encoding/binary"
 	"fmt"
 	"sync"
 	"testing"
@@ -33,9 +33,9 @@ var aNames = []string{"answer-all", "stop-after-n", "answer-only-jth-transmissio
 
 // transport schedules
 const (
-	sImmediate = iota // the answer is queued while the client's Write is still running and Write returns at once
-	sLateReturn       // the client's Write returns 10 ms after the peer has seen the bytes; the answer arrives in between
-	sJustBefore       // the answer arrives 1 ms before the retransmit timer
+	sImmediate  = iota // the answer is queued while the client's Write is still running and Write returns at once
+	sLateReturn        // the client's Write returns 10 ms after the peer has seen the bytes; the answer arrives in between
+	sJustBefore        // the answer arrives 1 ms before the retransmit timer
 	nSchedules
 )
 
